@@ -1,7 +1,7 @@
 (* C11 -- overlay disk state matches the live view across restart; copy-up preserves files.
    Only statements, closed by [exact]; proofs live in Proofs/Overlay*.v. *)
 From Coq Require Import List String NArith Bool.
-From FB Require Import Model.Overlay Proofs.OverlayInv Proofs.OverlayScan Proofs.OverlayRestart Proofs.OverlayCopyUp Proofs.OverlayReadOnly.
+From FB Require Import Model.Overlay Proofs.OverlayInv Proofs.OverlayScan Proofs.OverlayRestart Proofs.OverlayCopyUp Proofs.OverlayReadOnly Proofs.OverlayCoh Proofs.OverlayCohView Proofs.OverlayCohOps.
 Import ListNotations.
 Local Open Scope string_scope.
 Local Open Scope N_scope.
@@ -33,6 +33,16 @@ Proof. exact witness_unlink. Qed.
 Theorem C11_restart_partial : forall u ls nx ops,
   Forall layer_ok (all_layers u ls) -> readonly_history ops = true -> restart_same_view u ls nx ops.
 Proof. exact restart_partial. Qed.
+(* Restart equivalence from the coherence invariant: EVERY coherent state shows, after a restart, the
+   tree it shows live (trees compared as finite maps, [teq]: directory entries by name, not position) ... *)
+Theorem C11_coherent_restart : forall s, Coherent s -> oteq (view (load_all (restart s))) (view (load_all s)).
+Proof. exact coherent_restart. Qed.
+(* ... hence for all layer contents and all histories over the operations of [coh_op]
+   (the read-only ones and MKDIR, with or without tree walks in between): *)
+Theorem C11_restart_partial_mkdir : forall u ls nx ops, Forall layer_ok (u :: ls) -> coh_history ops = true ->
+  let s := run_dumps ops (load_all (fresh (Some u) ls nx)) in
+  oteq (view (load_all (restart s))) (view (load_all s)).
+Proof. exact restart_coherent_history. Qed.
 Example C11_restart_partial_nonvacuous :
   let u := Dir 493 [] [("d", Dir 493 [] [("n", File 1 420 [] [])]); ("w", Wh)] in
   let l := Dir 493 [] [("d", Dir 448 [] [("o", File 2 420 [] [])]); ("w", Lnk [97])] in
@@ -99,3 +109,5 @@ Print Assumptions C11_copy_up_preserves_file.
 Print Assumptions C11_copy_up_preserves_symlink.
 Print Assumptions C11_copy_up_preserves_dir.
 Print Assumptions C11_restart_partial.
+Print Assumptions C11_coherent_restart.
+Print Assumptions C11_restart_partial_mkdir.
